@@ -38,6 +38,10 @@ def cases(tier, rng):
     for lens in ([70000], [0, 70000, 0], [131072, 0], [1 << 20, 1, 0]):
         out.append("d%d encdec %s" % (k, ",".join(str(l) for l in lens)))
         k += 1
+    # frame COUNTS far beyond anything usual (the property puts no bound on N)
+    for nfr in (300, 1000, 4097, 10001, 25000, 70000):
+        out.append("d%d encdec %s" % (k, ",".join(str((i * 7) % 3) for i in range(nfr))))
+        k += 1
     nfs = (1, 2, 3) if tier == "quick" else (1, 2, 3, 4)
     for nf in nfs:
         for lens in itertools.product(GRID, repeat=nf):
